@@ -77,6 +77,7 @@ type gen struct {
 	r           *rng.R
 	compileSafe bool
 	p           *gProgram
+	fnCounter   int
 }
 
 var baseTypes = []string{"bool", "byte", "i16", "i32", "i64", "double", "string", "binary"}
@@ -464,6 +465,12 @@ func (g *gen) genFile(f *gFile, isMain bool) {
 		b.WriteString(" {\n")
 		for k := 0; k < nf; k++ {
 			fn := rng.Pick(r, funcNames)
+			if g.compileSafe {
+				// the Go backend exports get / Get under one name and embeds base services:
+				// keep method names distinct across the whole program
+				g.fnCounter++
+				fn = fmt.Sprintf("m%d", g.fnCounter)
+			}
 			if used[fn] {
 				continue
 			}
@@ -482,7 +489,9 @@ func (g *gen) genFile(f *gFile, isMain bool) {
 			}
 			throws := ""
 			if oneway == "" {
-				excs := g.visible(f, func(s *gSym) bool { return s.kind == "exception" || (s.kind == "typedef" && s.isExc) })
+				excs := g.visible(f, func(s *gSym) bool {
+					return s.kind == "exception" || (!g.compileSafe && s.kind == "typedef" && s.isExc)
+				})
 				if len(excs) > 0 && r.Chance(1, 2) {
 					var ts []string
 					seen := map[string]bool{}
